@@ -18,6 +18,7 @@ def gen_cases(tier, seed):
     for i in range(n):
         cases.append({"part": "api", "shard": i, "nshards": n, "tier": tier, "seed": seed})
     cases.append({"part": "limit", "tier": tier})
+    cases.append({"part": "genlimit", "tier": tier})
     for i in range(16 if q else 64):
         cases.append({"part": "compiled", "seed": seed * 31 + i, "n": 4 if q else 12})
     return cases
@@ -75,6 +76,59 @@ def run_api(case):
             if sample is None and n > 3:
                 sample = {"n_words": n, "acc": acc.name, "payload_head_hex": bytes(data[:48]).hex()}
     return {"violations": list(viol.values()), "counters": counters, "keys": sorted(keys), "sample": sample}
+
+
+def dma_ops(api, n):
+    """n DMA operations none of whose registers can be elided (9 words each)"""
+    ops = []
+    for i in range(n):
+        a = 0x1000 + 32 * (i % 1000) + (16 if i % 2 else 0)
+        ops.append(api.NpuDmaOperation(api.NpuAddressRange(i % 2, a, 16 * (1 + i % 3)), api.NpuAddressRange(1 + i % 2, 0x100000 + a, 16 * (1 + i % 3))))
+    return ops
+
+
+def run_generator_limit(case):
+    """the command stream generator must refuse streams of 16 MiB or more (hardware limit) and accept the ones just below, which must then be framed correctly"""
+    from ethosu.vela import api
+    from ethosu.vela.errors import VelaError
+
+    viol = {}
+    counters = {"generator_limit_probes": 0}
+    acc = api.NpuAccelerator.Ethos_U65_256
+    probe = api.npu_generate_register_command_stream(dma_ops(api, 1000), acc)
+    per_op = (len(probe) - 1) / 1000.0
+    n_over = int((1 << 22) / per_op) + 400
+    counters["generator_limit_probes"] += 1
+    try:
+        words = api.npu_generate_register_command_stream(dma_ops(api, n_over), acc)
+        if 4 * len(words) >= 1 << 24:
+            mech = "limit:generator-accepts-stream-above-16MiB"
+            viol.setdefault(mech, {"mech": mech, "msg": "%d DMA operations -> %d words = %d bytes accepted (hardware limit 16 MiB = %d bytes)" % (n_over, len(words), 4 * len(words), 1 << 24),
+                                   "witness": {"n_ops": n_over}})
+        else:
+            counters["generator_limit_probes"] -= 1  # the probe stayed below the limit: nothing observed
+        del words
+    except VelaError:
+        pass
+    except Exception as e:
+        mech = "limit:generator-non-vela-exception:" + type(e).__name__
+        viol.setdefault(mech, {"mech": mech, "msg": str(e)[:200], "witness": {"n_ops": n_over}})
+    if case["tier"] != "quick":
+        n_under = int(((1 << 22) - 64) / per_op) - 400
+        counters["generator_limit_probes"] += 1
+        try:
+            words = api.npu_generate_register_command_stream(dma_ops(api, n_under), acc)
+            if 4 * len(words) >= 1 << 24:
+                counters["generator_limit_probe_misjudged"] = 1
+            else:
+                data = api.npu_create_driver_payload(words, acc)
+                if len(data) != 4 * (8 + len(words)):
+                    mech = "frame:payload-size"
+                    viol.setdefault(mech, {"mech": mech, "msg": "%d words framed into %d bytes" % (len(words), len(data)), "witness": {"n_ops": n_under}})
+        except Exception as e:
+            mech = "limit:generator-rejects-stream-below-16MiB:" + type(e).__name__
+            viol.setdefault(mech, {"mech": mech, "msg": "%d DMA operations (about %d words): %s" % (n_under, int(n_under * per_op), str(getattr(e, "data", e))[:200]), "witness": {"n_ops": n_under}})
+    return {"violations": list(viol.values()), "counters": counters, "keys": ["generator-limit"], "sample": None}
 
 
 def run_limit(case):
@@ -166,13 +220,13 @@ def run_compiled(case):
 
 
 def run_case(case):
-    return {"api": run_api, "limit": run_limit, "compiled": run_compiled}[case["part"]](case)
+    return {"api": run_api, "limit": run_limit, "compiled": run_compiled, "genlimit": run_generator_limit}[case["part"]](case)
 
 
 def summarise(agg, tier):
     q = tier == "quick"
     return {
-        "thresholds": {"payloads": 1200 if q else 6000, "limit_probes": 2 if q else 3, "compiled_streams": 30 if q else 400},
+        "thresholds": {"payloads": 1200 if q else 6000, "limit_probes": 2 if q else 3, "generator_limit_probes": 1 if q else 2, "compiled_streams": 30 if q else 400},
         "rule": "api: every length 0..600 (quick) / 0..4096 (thorough) + boundary lengths around 2^16/2^17 + random up to 2^18 (2^22 thorough), 4 word styles, 6 accelerators "
                 "for short streams; limit: 2^24 and 2^24+5 words must raise VelaError (thorough: 2^24-1 must be framed); compiled: command-stream tensors of real output "
                 "models. distinct = (length, accelerator) pairs",
